@@ -126,7 +126,23 @@ def wrapper(repo, res):
     if not ok:
         res.add(Finding('D2', f.fullname, 'no-detection warning', f.loc, 'detect_sources must warn exactly when it returns None', {}))
     g = repo.get_function('photutils.segmentation.utils._make_binary_structure')
-    src = {nf(n.value) for n in ast.walk(g.node) if isinstance(n, ast.Assign)}
+    from .common import pathsum_spec
+    pathsum_spec(res, 'SPEC', g, '''
+def _make_binary_structure(ndim, connectivity):
+    if ndim == 1:
+        footprint = np.array((1, 1, 1))
+    elif ndim == 2:
+        if connectivity == 4:
+            footprint = np.array(((0, 1, 0), (1, 1, 1), (0, 1, 0)))
+        elif connectivity == 8:
+            footprint = np.ones((3, 3), dtype=int)
+        else:
+            raise ValueError('Invalid connectivity')
+    else:
+        footprint = generate_binary_structure(ndim, 1)
+    return footprint
+''', 'connectivity 4 = von Neumann cross, 8 = full 3x3 (2-D); anything else raises; other dimensions use the scipy structure')
+    src = {nf(n.value) for n in ast.walk(g.node) if isinstance(n, (ast.Assign, ast.Return)) and n.value is not None}
     for w, meaning in ((nf_text('np.array(((0, 1, 0), (1, 1, 1), (0, 1, 0)))'), '4-connectivity = von Neumann cross'),
                        (nf_text('np.ones((3, 3), dtype=int)'), '8-connectivity = full 3x3')):
         ok = w in src
